@@ -147,11 +147,16 @@ func (w *world) newTruth(p probe, reply *dns.Msg) string {
 	}
 }
 
+// stripSigs drops the RRSIGs and returns copies with TTL 0: which records the
+// reply carries is this monitor's subject, how large their TTLs are is not
+// (the 5 s cache floor legitimately lifts a 1–4 s TTL; TTL fidelity is C04's).
 func stripSigs(in []dns.RR) []dns.RR {
 	var out []dns.RR
 	for _, rr := range in {
 		if _, ok := rr.(*dns.RRSIG); !ok {
-			out = append(out, rr)
+			c := dns.Copy(rr)
+			c.Header().Ttl = 0
+			out = append(out, c)
 		}
 	}
 	return out
